@@ -2595,6 +2595,8 @@ impl Formatter {
     }
     if self.html {
       format!("<span class=\"mech-map\"><span class=\"mech-start-brace\">{{</span>{}<span class=\"mech-end-brace\">}}</span></span>",src)
+    } else if node.elements.is_empty() {
+      "{:}".to_string()
     } else {
       format!("{{{}}}", src)
     }
